@@ -46,7 +46,7 @@ PredHolds(p, a) ==
     [] p = "p_pos"  -> NumOf(a[1]) > 0
     [] p = "p_true" -> TRUE
 
-RECURSIVE Val(_, _, _, _), Holds(_, _, _, _), Extend(_, _, _, _, _), ConcatFrom(_, _, _, _, _, _)
+RECURSIVE Val(_, _, _, _), Holds(_, _, _, _), Extend(_, _, _, _, _), ConcatFrom(_, _, _, _, _, _), Side(_, _, _, _)
 
 FlattenSeqs(ss) == FoldLeft(LAMBDA acc, s : acc \o s, <<>>, ss)
 
@@ -71,7 +71,7 @@ SlotsOf(e, q) ==
 \* concatenate(e): every element of e over every assignment of e's
 \* variables, in domain order then inner order
 ConcatFrom(e, q, W, slots, k, env) ==
-  IF k > NSlots(q) THEN Elems(Val(e, env, q, W))
+  IF k > NSlots(q) THEN (IF Side(e, env, q, W) THEN Elems(Val(e, env, q, W)) ELSE <<>>)   \* a sub-query inside e restricts
   ELSE IF k \notin slots THEN ConcatFrom(e, q, W, slots, k + 1, Append(env, NoneV))
   ELSE LET c == SlotVals(q, W, k, env)
        IN FlattenSeqs([i \in 1..Len(c) |-> ConcatFrom(e, q, W, slots, k + 1, Append(env, c[i]))])
@@ -87,7 +87,6 @@ Val(e, env, q, W) ==
     [] e.k = "sub"  -> env[e.i]
 
 \* side conditions carried by sub-queries used as operands
-RECURSIVE Side(_, _, _, _)
 Side(e, env, q, W) ==
   CASE e.k = "sub" -> Holds(e.c, env, q, W)
     [] e.k \in {"attr", "idx", "mcall"} -> Side(e.e, env, q, W)
